@@ -20,6 +20,9 @@ Definition in_dom (id : Z) : bool := (0 <=? id) && (id <? 2 ^ 63).
    as interval ends as long as the shift does not overflow) *)
 Definition fits (c : cfg) (off : Z) : bool := (- 2 ^ (63 - time_shift c) <=? off) && (off <? 2 ^ (63 - time_shift c)).
 
+(* the reading the monitor uses for "fits the timestamp width": the offset is a value of the unsigned timestamp field *)
+Definition fits_u (c : cfg) (off : Z) : bool := (0 <=? off) && (off <? 2 ^ (63 - time_shift c)).
+
 Definition z3_eqb (a b : Z * Z * Z) : bool :=
   let '(a1, a2, a3) := a in let '(b1, b2, b3) := b in (a1 =? b1) && (a2 =? b2) && (a3 =? b3).
 Definition res_eqb (a b : res) : bool :=
@@ -80,23 +83,31 @@ Definition holds_order (c : cfg) (id1 id2 : Z) (f1 f2 : Z * Z * Z) : bool :=
 Definition holds_cn (id : Z) (s : list Z) (r : res) : bool :=
   (Z.of_nat (length s) =? 24) && res_eqb r (Ok id).
 
-(* the id interval [mn, mx] against the second-truncated endpoints bs <= es (ms since 1970):
-   the four extreme ids decide the clause for every id (C07_Proofs.range_monitor_adequate) ... *)
+(* the id interval [mn, mx] against the second-truncated endpoints bs, es (ms since 1970), read literally and over
+   the ids the property speaks of (non-negative int64): every id stamped bs..es is inside, every id stamped before bs
+   or from es + 1000 on (after the last endpoint's second) is outside; ids stamped es+1 .. es+999 are left open by
+   the statement.  The extreme ids decide the clause for every id (C07_Proofs.range_monitor_adequate) ... *)
 Definition holds_bounds (c : cfg) (bs es mn mx : Z) : bool :=
   let k := 2 ^ time_shift c in
   let first_in := (bs - epoch c) * k in            (* timestamp bs, low bits 0 *)
   let last_in := (es - epoch c) * k + (k - 1) in   (* timestamp es, low bits all ones *)
+  let last_before := first_in - 1 in               (* timestamp bs - 1, low bits all ones *)
+  let first_after := (es + 1000 - epoch c) * k in  (* timestamp es + 1000, low bits 0 *)
   (mn <=? first_in) && (first_in <=? mx) && (mn <=? last_in) && (last_in <=? mx)
-  && (first_in - 1 <? mn)                          (* timestamp bs - 1, low bits all ones: outside *)
-  && (mx <? last_in + 1).                          (* timestamp es + 1, low bits 0: outside *)
+  && (if in_dom last_before then last_before <? mn else true)
+  && (if in_dom first_after then mx <? first_after else true).
 (* ... and the ids probed on the implementation, with the timestamp IDParse reported for them *)
 Definition holds_probes (bs es mn mx : Z) (ps : list (Z * Z)) : bool :=
   forallb (fun p => let '(id, ts) := p in
-     if in_dom id then Bool.eqb ((mn <=? id) && (id <=? mx)) ((bs <=? ts) && (ts <=? es)) else true) ps.
+     if in_dom id then
+       let inside := (mn <=? id) && (id <=? mx) in
+       (if (bs <=? ts) && (ts <=? es) then inside else true)
+       && (if (ts <? bs) || (es + 1000 <=? ts) then negb inside else true)
+     else true) ps.
 
 Definition holds_between (c : cfg) (b e mn mx : Z) (ps : list (Z * Z)) : bool :=
   let bs := unix_s b * 1000 in let es := unix_s e * 1000 in
-  if (b <=? e) && fits c (bs - epoch c) && fits c (es - epoch c)
+  if (b <=? e) && fits_u c (bs - epoch c) && fits_u c (es - epoch c)
   then holds_bounds c bs es mn mx && holds_probes bs es mn mx ps else true.
 
 Definition case_holds (k : case) : bool :=
